@@ -192,12 +192,16 @@ Definition cp_hals_mode (utm utu : cp_state -> nat -> mat) (solve : mat -> mat -
               else transp (solve (transp (utu st mode)) (utm st mode)) in
   let Fs' := set_nth mode newf Fs in
   if normalize && negb (Nat.eqb mode lastmode) then cp_normalize nrm (w, Fs') else (w, Fs').
+(* `if not modes: return the initialisation` (every mode fixed) *)
 Definition non_negative_parafac_hals (utm utu : nat -> cp_state -> nat -> mat) (solve : mat -> mat -> mat)
            (inner : nat -> cp_state -> nat -> nat) (stop : nat -> cp_state -> bool)
            (nn : list nat) (sps : list (option F)) (normalize : bool) (modes : list nat) (n_iter_max : nat) (init : cp_state) : cp_state :=
-  outer_loop n_iter_max 0
-    (fun it st => fold_left (cp_hals_mode (utm it) (utu it) solve (inner it) nn sps normalize (last modes 0)) modes st)
-    stop (cp_fin normalize) (cp_fin normalize) init.
+  match modes with
+  | [] => init
+  | _ => outer_loop n_iter_max 0
+           (fun it st => fold_left (cp_hals_mode (utm it) (utu it) solve (inner it) nn sps normalize (last modes 0)) modes st)
+           stop (cp_fin normalize) (cp_fin normalize) init
+  end.
 Definition cp_hals_utm (T : tensor F) (st : cp_state) (mode : nat) : mat := transp (mttkrp T (fst st) (snd st) mode).
 Definition cp_hals_utu (st : cp_state) (mode : nat) : mat := wscale (fst st) (gram_skip (length (fst st)) mode (snd st)).
 
@@ -207,6 +211,9 @@ Definition initialize_cp_nn (R : nat) (raw : list mat) (normalize : bool) : cp_s
 (* user (weights, factors): the weights are multiplied into the last factor, no abs *)
 Definition initialize_cp_user (w : vec) (Fs : list mat) : cp_state :=
   (repeat one (length w), match rev Fs with [] => [] | L :: r => rev r ++ [mul_cols L w] end).
+(* initialize_cp with a user (weights, factors) as called by the decompositions: optionally normalised afterwards *)
+Definition initialize_cp_user_norm (w : vec) (Fs : list mat) (normalize : bool) : cp_state :=
+  cp_fin normalize (initialize_cp_user w Fs).
 
 (* ---------------------------------------------------------------- non_negative_tucker (MU) *)
 Definition tk_mu_mode (eps : F) (numf denf : tk_state -> nat -> mat) (st : tk_state) (mode : nat) : tk_state :=
